@@ -59,8 +59,8 @@ class C08(Prop):
             # no overload key may mention a list type
             keys_with_list = [ast.unparse(kk) for d in ast.walk(fn) if isinstance(d, ast.Dict) for kk in d.keys if kk is not None and re.search(r"\blist\b|LazyList", ast.unparse(kk))]
             modulo_ok = fn.name == "modulo" and keys_with_list == ["(str, list)"]  # documented string-format overload
-            g.append(Ground(f"C08/falls-through-to-vectorise[{k}]", ok, f"{fn.name}: expected the default `{pat}`", witness=dict(element=k, function=fn.name)))
-            g.append(Ground(f"C08/no-list-overload[{k}]", not keys_with_list or modulo_ok, f"overload keys naming a list: {keys_with_list}", witness=dict(element=k, function=fn.name, keys=keys_with_list)))
+            g.append(Ground(f"C08/falls-through-to-vectorise[{k}]", ok, f"{fn.name}: expected the default `{pat}`", witness=dict(element=k, function=fn.name), native=False))
+            g.append(Ground(f"C08/no-list-overload[{k}]", not keys_with_list or modulo_ok, f"overload keys naming a list: {keys_with_list}", witness=dict(element=k, function=fn.name, keys=keys_with_list), native=False))
             self.covered.append(k)
         g.append(Ground("C08/vectorising-elements-found", len(self.covered) >= 60, f"{len(self.covered)} covered, not covered: {self.not_covered}"))
         return g
